@@ -1,8 +1,12 @@
 ------------------------------ MODULE MpfMachineL ------------------------------
 (* MpfMachineCore on limb integers (the code's real constants, exponents astride the far threshold). *)
 EXTENDS ZLimb
-CONSTANTS MB, ES, EB, PS, FAR, G, DX, Depth, Ops, GROW, WK
+CONSTANTS MB, ES, EB, PS, FAR, G, DX, PT, Depth, Ops, GROW, WK, NS, UNARY
 VARIABLES a, b, st, depth
 INSTANCE MpfMachineCore
+ESQuick == -2..2
+ESThorough == -3..3
+NSQuick == {-5, -3, -2, -1, 0, 1, 2, 3, 4, 5, 7}
+NSReal == {-3, 2, 3, 5, 8}
 ESReal == {-104, -101, -100, -1, 0, 2}
 =============================================================================
